@@ -1,24 +1,22 @@
-\* generated by lib/slices.py from pair slice 'pair_v311_chunks' - do not edit
-SPECIFICATION Spec
-VIEW view
+\* generated by lib/slices.py from pair liveness slice 'pair_live_v50_ka' - do not edit
+SPECIFICATION FairSpec
 CHECK_DEADLOCK FALSE
-PROPERTY NoViolation
-ACTION_CONSTRAINT PrintEdge
+PROPERTY Terminates
 CONSTANTS
- Ver = "v311"
+ Ver = "v50"
  AutoPub = TRUE
- AutoPing = TRUE
- KA = 0
+ AutoPing = FALSE
+ KA = 10
  SRM = 99999
  CRM = 99999
  STAM = 99999
  CTAM = 99999
  MaxOps = 1
  MaxLoss = 1
- MaxFire = 0
- Ops = {"pub1", "pub2"}
+ MaxFire = 1
+ Ops = {"ping", "pub1"}
  Sides = {"c", "s"}
  AliasModes = {"none"}
  Chunks = TRUE
  EndpointProps = {"C05", "C06", "C07", "C08", "C12", "C13", "C14", "C15", "C19"}
- Record = TRUE
+ Record = FALSE
